@@ -200,6 +200,15 @@ class Continuous(AgentSchedulingComponent):
             self._log.debug_9('node: %s', pprint.pformat(node))
             self._log.debug_9('cps : %s', cores_per_slot)
 
+            # the node must have enough lfs / mem left for one more slot
+            if lfs_per_slot and lfs_per_slot * (len(slots) + 1) > node['lfs']:
+                self._log.debug_9('not enough lfs on %s', node_name)
+                break
+
+            if mem_per_slot and mem_per_slot * (len(slots) + 1) > node['mem']:
+                self._log.debug_9('not enough mem on %s', node_name)
+                break
+
             slot  = {'node_name' : node_name,
                      'node_index': node_idx,
                      'cores'     : list(),
